@@ -956,4 +956,56 @@ theorem sumAb_pos (d : Dist Rat) (hpos : AllPos d) (hne : d ≠ []) : 0 < sumAb 
     | cons r s => have := ih ht (by simp); linarith
 
 
+/-! ### top-k and threshold -/
+
+theorem insertDesc_sorted {κ : Type} [DecidableEq κ] [Add κ] (x : κ × Rat) (d : Dist κ) (h : d.Pairwise (fun a b => b.2 ≤ a.2)) :
+    (insertDesc x d).Pairwise (fun a b => b.2 ≤ a.2) := by
+  induction d with
+  | nil => simp [insertDesc]
+  | cons y t ih =>
+    simp only [insertDesc]
+    rw [List.pairwise_cons] at h
+    split
+    · next hlt =>
+      refine List.pairwise_cons.2 ⟨?_, List.pairwise_cons.2 h⟩
+      intro z hz
+      rcases List.mem_cons.1 hz with rfl | hz
+      · exact le_of_lt hlt
+      · exact le_trans (h.1 z hz) (le_of_lt hlt)
+    · next hge =>
+      refine List.pairwise_cons.2 ⟨?_, ih h.2⟩
+      intro z hz
+      have hz' : z ∈ x :: t := (insertDesc_perm x t).mem_iff.1 hz
+      rcases List.mem_cons.1 hz' with h1 | h1
+      · rw [h1]; exact not_lt.1 hge
+      · exact h.1 z h1
+
+theorem sortDesc_sorted {κ : Type} [DecidableEq κ] [Add κ] (d : Dist κ) : (sortDesc d).Pairwise (fun a b => b.2 ≤ a.2) := by
+  unfold sortDesc
+  suffices ∀ acc : Dist κ, acc.Pairwise (fun a b => b.2 ≤ a.2) →
+      (d.foldl (fun acc x => insertDesc x acc) acc).Pairwise (fun a b => b.2 ≤ a.2) from this [] List.Pairwise.nil
+  induction d with
+  | nil => intro acc h; simpa using h
+  | cons x t ih => intro acc h; simp only [List.foldl_cons]; exact ih _ (insertDesc_sorted x acc h)
+
+
+open PeptVerif.Gen.C14 in
+theorem convolveAll_threshold_irrelevant (o : Opts) (f : List (Key × Int)) (d : Dist Rat) :
+    convolveAll { o with minAbundanceThreshold := none } f d = convolveAll o f d := by
+  induction f generalizing d with
+  | nil => rfl
+  | cons q t ih =>
+    obtain ⟨k, c⟩ := q
+    simp only [convolveAll]
+    cases lookupEntry k with
+    | none => rfl
+    | some e => exact ih _
+
+open PeptVerif.Gen.C14 in
+theorem rawDistribution_threshold_irrelevant (f : Formula) (o : Opts) :
+    rawDistribution f { o with minAbundanceThreshold := none } = rawDistribution f o := by
+  unfold rawDistribution
+  simp only [convolveAll_threshold_irrelevant]
+
+
 end Isotope
